@@ -12,8 +12,11 @@
    Honest scope: the interleavings are those of the model's per-element atomic steps.  Real goroutine
    schedules, the Go memory model and the race detector are outside Coq; they are sampled by
    harness/cmd/c10 (exhaustive n <= 40 x s <= 20, -race build, GOMAXPROCS sweeps). *)
+From Coq Require Import String.
 From Coq Require Import List Arith ZArith Bool Permutation.
 From PF Require Import Par.Partition Par.Interleave Par.ParProofs Par.ParExtra Par.ParSequence Check.C10.
+From PF Require Import Par.Sites Par.SitesProofs Par.ParRound4.
+From PFGen Require ParSites.
 From Coq Require Import Reals.
 From PF Require Par.FloatDiv.
 From Flocq Require Core.
@@ -361,6 +364,119 @@ Theorem work_size_float64 : forall n s : nat,
   = work_size n s.
 Proof. exact FloatDiv.work_size_float64. Qed.
 Print Assumptions work_size_float64.
+
+(* ------------------------------------------------------------------ the source itself (translator binding) *)
+(* coq/gen/ParSites.v is written by tools/par2coq from modeling/mesh.go of the tree under test on every run: it
+   executes every <X>ParallelWithPoolSize method of Mesh, its sequential counterpart <X> and the wrapper <X>Parallel
+   symbolically (helpers inlined, closures entered, if/else merged) and records what the SOURCE says -- when it
+   panics / delegates, the dispatch loop, and for every element loop its bounds lo, hi as terms of a (the element
+   count: len(<data>) or m.PrimitiveCount(), which is -1 for a line strip without indices), s (pool size) and w
+   (worker), the index given to the callback, the indices read and written.  The theorem is about those terms:
+   for each of the seven entry points, every element count and pool size: s < 1 panics, s = 1 returns the sequential
+   method, s >= 2 starts one goroutine per w in [0, s) and in EVERY branch (every topology the scan supports; the
+   branch labels of parallel and sequential method coincide) the workers' loops, worker after worker, visit exactly
+   what the sequential loop of that branch visits: 0 .. a-1, in bounds; callback index = read index = write index =
+   loop index; what is written is not what is read.  (`par_visited` / `seq_visited` evaluate the generated bounds.) *)
+Theorem generated_sites_partition_exact :
+  Forall2 (fun P S =>
+    ps_delegate_to P = ss_name S /\ ps_name P = (ss_name S ++ "ParallelWithPoolSize")%string /\
+    forall a s, atom_dom (ps_atom P) a ->
+      (ps_panics P a s = true <-> (s < 1)%Z) /\ (ps_delegates P a s = true <-> s = 1%Z) /\
+      ((2 <= s)%Z ->
+         ps_guard P a s = true /\ ps_disp_lo P a s = 0%Z /\ ps_disp_hi P a s = s /\
+         Forall2 (fun lp ls =>
+                    wl_label lp = wl_label ls /\ wl_in_worker lp = true /\
+                    par_visited lp a s = seq_visited ls a /\ seq_visited ls a = zrange 0 (Z.to_nat a) /\
+                    (forall x, In x (par_visited lp a s) -> (0 <= x < a)%Z) /\
+                    Forall (fun f => forall k, f k = k) (wl_cb lp) /\
+                    Forall (fun r => forall k, snd r k = k) (wl_rd lp) /\
+                    Forall (fun r => forall k, snd r k = k) (wl_wr lp))
+                 (ps_loops P) (ss_loops S)))
+    ParSites.par_sites ParSites.seq_sites.
+Proof. exact SitesProofs.generated_sites_partition_exact. Qed.
+Print Assumptions generated_sites_partition_exact.
+
+(* the obligations the generated file was checked against, and that nothing is missing from it: the seven entry
+   points and their seven wrappers (which pass runtime.NumCPU() as the pool size) are there under their names *)
+Theorem generated_sites_complete :
+  Forall psite_ok ParSites.par_sites /\ Forall ssite_ok ParSites.seq_sites
+  /\ Forall2 pair_ok ParSites.par_sites ParSites.seq_sites /\ Forall wrapper_ok ParSites.wrappers
+  /\ List.length ParSites.par_sites = 7 /\ List.length ParSites.wrappers = 7
+  /\ (exists P, In P ParSites.par_sites /\ ps_name P = "ScanPrimitivesParallelWithPoolSize"%string
+                /\ map wl_label (ps_loops P)
+                   = ["m.topology==TriangleTopology"; "m.topology==PointTopology"; "m.topology==LineStripTopology"]%string).
+Proof.
+  split; [exact par_sites_ok|]. split; [exact seq_sites_ok|]. split; [exact pairs_ok|]. split; [exact wrappers_ok|].
+  split; [exact (f_equal (@List.length _) (proj1 sites_named))|].
+  split; [exact (f_equal (@List.length _) (proj2 sites_named))|].
+  exists ParSites.ScanPrimitivesParallelWithPoolSize_site. split; [|split; reflexivity].
+  unfold ParSites.par_sites. cbn. tauto.
+Qed.
+Print Assumptions generated_sites_complete.
+
+(* the generic half: ANY loop whose bounds are provably ws*w and ws*w+ws (the total for the last worker) wherever it
+   is reached, and empty where it is not, visits 0 .. a-1 exactly and stays in bounds *)
+Theorem loop_obligation_suffices : forall atom m l, par_loop_ok atom m l ->
+  forall a s, atom_dom atom a -> (2 <= s)%Z ->
+    par_visited l a s = zrange 0 (Z.to_nat a) /\ (forall x, In x (par_visited l a s) -> (0 <= x < a)%Z).
+Proof.
+  intros atom m l H a s Ha Hs. split; [exact (par_loop_visits atom m l H a s Ha Hs)|].
+  intros x. exact (par_loop_in_bounds atom m l H a s x Ha Hs).
+Qed.
+Print Assumptions loop_obligation_suffices.
+
+(* seeded change C10-I: the scan helpers take (start, count) but the line-strip call site still passes
+   (start, start+size).  With 4 segments and 2 workers the second worker runs over 2..5; with fewer segments than
+   workers nothing is wrong; and the obligation above rejects that loop. *)
+Theorem count_callsite_refuted :
+  par_visited count_callsite_loop 4 2 = [0; 1; 2; 3; 4; 5]%Z
+  /\ par_visited count_callsite_loop 4 2 <> zrange 0 4
+  /\ par_visited count_callsite_loop 2 3 = zrange 0 2
+  /\ ~ par_loop_ok "m.PrimitiveCount()" false count_callsite_loop.
+Proof. exact ParRound4.count_callsite_refuted. Qed.
+Print Assumptions count_callsite_refuted.
+
+(* ------------------------------------------------------------------ worker pools and block lists *)
+(* AddFieldParallel and marchFloat1Parallel start runtime.NumCPU() workers that take jobs from a channel.  If
+   groups[k] is the list of jobs worker k happened to take (in that order), its steps are the concatenation of those
+   jobs.  EVERY interleaving of such workers is an interleaving of the dispatched jobs themselves -- whatever the pool
+   size, the job-to-worker assignment and the order in which the queue is drained.  Hence every theorem above that
+   quantifies over all interleavings of the jobs (addfield_*, march_any_schedule) holds for the real pool. *)
+Theorem pool_schedule_is_job_interleaving : forall (A : Type) (groups : list (list (list A))) (jobs : list (list A)) e,
+  Permutation (List.concat groups) jobs -> interleaving e (map (@List.concat A) groups) -> interleaving e jobs.
+Proof. intros A. exact (@ParRound4.pool_schedule_is_job_interleaving A). Qed.
+Print Assumptions pool_schedule_is_job_interleaving.
+
+(* the order in which the workers are listed does not matter *)
+Theorem interleaving_perm_workers : forall (A : Type) (e : list A) ws ws',
+  interleaving e ws -> Permutation ws ws' -> interleaving e ws'.
+Proof. intros A e ws ws' H Hp. exact (ParRound4.interleaving_perm_workers e ws H ws' Hp). Qed.
+Print Assumptions interleaving_perm_workers.
+
+(* the field accumulation with a pool: composition of the two statements *)
+Theorem addfield_pool_any_schedule :
+  forall (K V : Type) (keqb : K -> K -> bool) (add : V -> V -> V),
+    (forall a b, keqb a b = true <-> a = b) ->
+  forall (jobs : list (K * list (Z * V))) (groups : list (list (list (@astep K V)))) e st,
+    NoDup (map fst jobs) -> Permutation (List.concat groups) (map job_steps jobs) ->
+    interleaving e (map (@List.concat _) groups) ->
+    forall k c, run_canvas keqb add e st k c = run_canvas keqb add (List.concat (map job_steps jobs)) st k c.
+Proof.
+  intros K V keqb add H jobs groups e st Hn Hp He.
+  apply (ParProofs.addfield_any_schedule keqb add H jobs e st Hn).
+  exact (ParRound4.pool_schedule_is_job_interleaving groups _ e Hp He).
+Qed.
+Print Assumptions addfield_pool_any_schedule.
+
+(* The block list decides the result of a march: a block marched once more (seeded change C10-J sizes the job list
+   by the canvas-wide block store, so block (0,0,0) is marched once per block of another attribute) or once less
+   changes the triangle multiset, unless that block has no triangle. *)
+Theorem march_extra_block_changes_result : forall (P : Type) (d : P) (blocks : list (@bmesh P)) (b : @bmesh P),
+  Forall (@bwf P) blocks -> bwf b -> tris b <> [] ->
+  ~ Permutation (resolve d (march_fold (b :: blocks))) (resolve d (march_fold blocks))
+  /\ List.length (resolve d (march_fold (b :: blocks))) = List.length (tris b) + List.length (resolve d (march_fold blocks)).
+Proof. intros P d. exact (ParRound4.march_extra_block_changes_result d). Qed.
+Print Assumptions march_extra_block_changes_result.
 
 (* ------------------------------------------------------------------ non-vacuity *)
 Example c10_example :
